@@ -72,6 +72,16 @@ CHECKS = {
         note="Bounded in the number of simultaneously symbolic outputs (2 quick / 3 thorough); other bytes zero. "
              "PYTHONHASHSEED fixed by ./run. Known findings: three table families cannot build a facade at all.",
         ref="5/C12"),
+    "C13": dict(
+        text="Real device commands (switch on/off async and threaded, pump mode, target temperature, temperature unit, "
+             "watercare mode) through the real accessor write path, the real SPACK/SETWC encoders and the real "
+             "GeckoAsyncUdpProtocol.get on a virtual loop; a reference spa applies the write or key press and echoes a "
+             "STATP that the real handler installs. Symbolic: the current state of the items the command touches, the "
+             "argument, both counters. Exactly one well-formed command with pack type, versions and command-range "
+             "sequence, the item reads the requested value after the echo, no datagram when already in the requested state.",
+        note="One command per path; wiring from the 6 configurations of the 34 shipped snapshots; three concrete "
+             "temperature arguments per unit (all decimals are C14's); reference spa semantics are an assumption.",
+        ref="5/C13"),
     "C14": dict(
         text="Real GeckoTempStructAccessor and GeckoWaterHeater under IEEE-754 double semantics (z3 FloatingPoint): "
              "decode formula, enc(dec(r)) == r for all 65536 raw words in both units (sync and async path), decimal "
